@@ -218,6 +218,17 @@ ReaderDone(t) ==
   /\ NextCall(t) /\ Move(t)
   /\ UNCHANGED <<wlock, mem, disk, files, wal, pend, hist, serial, nseg>>
 
+ThreadStep(t) ==
+     \/ Acquire(t) \/ Release(t) \/ AddStep(t) \/ RollbackStep(t)
+     \/ CommitSnapshot(t) \/ CommitSegment(t) \/ CommitStore(t) \/ CommitPublish(t) \/ CommitTruncate(t)
+     \/ CompactCopy(t) \/ CompactLock(t) \/ CompactSegment(t) \/ CompactPublish(t) \/ CompactUnlock(t) \/ CompactCleanup(t)
+     \/ ReaderCopy(t) \/ ReaderOpen(t) \/ ReaderDone(t)
+
+(* liveness: with every thread scheduled fairly, every program runs to     *)
+(* completion - no call waits forever on the writer mutex or the RwLock    *)
+FairSpec == Init /\ [][\E t \in Threads : ThreadStep(t)]_vars /\ \A t \in Threads : WF_vars(ThreadStep(t))
+EventuallyFinished == <>(\A t \in Threads : pc[t][1] > Len(Prog[t]))
+
 Next ==
   \E t \in Threads :
      \/ Acquire(t) \/ Release(t) \/ AddStep(t) \/ RollbackStep(t)
